@@ -33,6 +33,12 @@ def oparamsValid (vp : Nat) (thr frac : Int) (w m : Nat) : Bool :=
   vp != 0 && thr ≥ (one18 / 2 : Nat) && thr ≤ (one18 : Nat) && frac ≥ 0 && frac ≤ (one18 : Nat) &&
   w != 0 && vp ≤ w && w % vp == 0 && m != 0 && m < w
 
+/-- what a governance parameter-change proposal checks: every value on its own (the validator functions of the parameter table).
+The relations between the values (`vp ≤ w`, `vp ∣ w`, `m < w`) are checked only by `Params.Validate`, which the proposal path does
+not run. -/
+def oparamsKeyValid (vp : Nat) (thr frac : Int) (w m : Nat) : Bool :=
+  vp != 0 && thr ≥ (one18 / 2 : Nat) && thr ≤ (one18 : Nat) && frac ≥ 0 && frac ≤ (one18 : Nat) && w != 0 && m != 0
+
 def isBlank (s : Str) : Bool := s.all (fun c => c == ' ' || c == '\t' || c == '\n' || c == '\r' || c.toNat == 11 || c.toNat == 12 || c.toNat == 0x85 || c.toNat == 0xA0)
 
 /-- `settlement Params.Validate`: fee in [0,1]; chain ids non-blank, free of the NFT-id separators, and distinct -/
@@ -89,7 +95,7 @@ def step (H : Str → Str) (s : State) : Op → StepRes
   | .vote f v salt r vds => ofS (vote H s f v salt r vds)
   | .consent v f => ofS (consent s v f)
   | .setOParams vp thr frac w m =>
-    if oparamsValid vp thr frac w m then
+    if oparamsKeyValid vp thr frac w m then
       { st := { s with os := { s.os with params := { votePeriod := vp, threshold := thr.toNat, slashFraction := frac.toNat, slashWindow := w, maxMiss := m } } }, out := .ok "" }
     else { st := s, out := .err }
   | .setSParams fee chains =>
